@@ -875,6 +875,9 @@ fn fd_step(s: &mut Stream, vm: bool, route: bool, opc: u64, arg: &Tok, script: &
 
 fn exec_fd(case: &[Tok]) -> Vec<Tok> {
     fdscript::self_test();
+    fdscript::watched(|| exec_fd_inner(case))
+}
+fn exec_fd_inner(case: &[Tok]) -> Vec<Tok> {
     let kind = case[1].u();
     let (base, route) = match kind {
         5 | 6 | 7 => (kind, false),
